@@ -260,6 +260,8 @@ pub struct CrashStats {
     pub torn: u64,
     pub max_pending: usize,
     pub t_judge2: f64,
+    pub t_judge1: f64,
+    pub t_post: f64,
     pub matched_cp_hist: std::collections::BTreeMap<String, u64>,
     pub capped: Vec<String>,
     pub failures: Vec<(String, Candidate, Option<Candidate>, String)>,
@@ -293,6 +295,40 @@ impl CrashStats {
         }
         self.record_failures.extend(o.record_failures);
     }
+}
+
+/// C11: when set, every recovery additionally checks that the allocator state the open path
+/// reconstructed (or loaded) is exactly the set of pages the independent decoder finds required
+/// by the durable contents, and that check_integrity() twice says Ok(true) without changing them
+pub static DEEP_OPEN: std::sync::atomic::AtomicBool = std::sync::atomic::AtomicBool::new(false);
+pub static DEEP_OPEN_CHECKS: std::sync::atomic::AtomicU64 = std::sync::atomic::AtomicU64::new(0);
+
+/// the allocator's allocated set (in-memory, via the accounting hook) against the independent
+/// decoder's required set of the image on storage
+pub fn allocator_matches_decoder(db: &redb::Database, image_now: &[u8]) -> Result<(), String> {
+    let sum = crate::account::check(db)?;
+    let _ = sum;
+    #[cfg(feature = "decoder")]
+    {
+        let alloc: std::collections::BTreeSet<(u32, u32)> = crate::account::allocated_set(db)?.into_iter().collect();
+        let dec = crate::decode::decode(image_now, crate::decode::Slot::Primary).map_err(|e| format!("independent decoder after open: {e}"))?;
+        let mut required = std::collections::BTreeSet::new();
+        for p in dec.data_pages.iter().chain(dec.system_pages.iter()).chain(dec.data_freed.iter()).chain(dec.system_freed.iter()) {
+            for q in crate::decode::expand(*p) {
+                required.insert(q);
+            }
+        }
+        if alloc != required {
+            let extra: Vec<_> = alloc.difference(&required).take(6).collect();
+            let missing: Vec<_> = required.difference(&alloc).take(6).collect();
+            return Err(format!(
+                "after open the allocator treats {} page(s) as in use that the durable contents do not require (e.g. {extra:?}) and {} required page(s) as free (e.g. {missing:?})",
+                alloc.difference(&required).count(),
+                required.difference(&alloc).count()
+            ));
+        }
+    }
+    Ok(())
 }
 
 pub enum Judged {
@@ -362,6 +398,23 @@ pub fn judge(cfg: Cfg, image: &[u8], cps: &[DbModel], d: usize, r: usize, record
                 wt.abort().map_err(|e| format!("abort after restore check: {e}"))?;
             }
         }
+        let mut db = db;
+        if DEEP_OPEN.load(std::sync::atomic::Ordering::Relaxed) {
+            DEEP_OPEN_CHECKS.fetch_add(1, std::sync::atomic::Ordering::Relaxed);
+            allocator_matches_decoder(&db, &b2.image())?;
+            for round in 0..2 {
+                match db.check_integrity() {
+                    Ok(true) => {}
+                    Ok(false) => return Err(format!("check_integrity() #{round} right after a successful open reported Ok(false)")),
+                    Err(e) => return Err(format!("check_integrity() #{round} right after a successful open failed: {e}")),
+                }
+                let again = dump::dump(&db, hints).map_err(|e| format!("reading after check_integrity: {e}"))?;
+                if !again.matches(&cps[cp]) {
+                    return Err(format!("check_integrity() #{round} changed the contents: {}", again.summary()));
+                }
+            }
+            allocator_matches_decoder(&db, &b2.image())?;
+        }
         drop(db);
         Ok((cp, b2.image()))
     });
@@ -429,6 +482,9 @@ fn post_checks(cfg: Cfg, recovered: &[u8], model: &DbModel) -> Result<(), String
         let mut it = Interp::attach(cfg, backend, m2)?;
         it.accounting = true;
         it.verify_committed()?;
+        if DEEP_OPEN.load(std::sync::atomic::Ordering::Relaxed) {
+            allocator_matches_decoder(it.db.as_ref().unwrap(), &it.backend.image()).map_err(|e| format!("clean open path: {e}"))?;
+        }
         it.step(&Op::Check).map_err(|e| format!("check_integrity after recovery: {e}"))?;
         // one more write
         let spec = crate::types::tbl(crate::types::T::U64, crate::types::T::Bytes);
@@ -494,7 +550,10 @@ pub fn explore_history(h: &History, b: &Bounds) -> CrashStats {
         let nothing_lost = cand.tear.is_none() && cand.kept.len() == cand.npending;
         let lvl = b.recovery_depth2.min(h.depth2);
         let want_d2 = lvl == 2 || (lvl == 1 && nothing_lost);
-        match judge(h.cfg, &img, &rec.cps, cand.d, cand.r, want_d2) {
+        let tj1 = std::time::Instant::now();
+        let jres = judge(h.cfg, &img, &rec.cps, cand.d, cand.r, want_d2);
+        st.t_judge1 += tj1.elapsed().as_secs_f64();
+        match jres {
             Judged::Bad(msg) => {
                 if st.failures.len() < 20 {
                     st.failures.push((h.name.clone(), cand.clone(), None, msg));
@@ -512,7 +571,10 @@ pub fn explore_history(h: &History, b: &Bounds) -> CrashStats {
                     ));
                 }
                 if b.post_checks && post_seen.insert(hash128(&recovered)) {
-                    if let Err(e) = post_checks(h.cfg, &recovered, &rec.cps[cp]) {
+                    let tp = std::time::Instant::now();
+                    let pc = post_checks(h.cfg, &recovered, &rec.cps[cp]);
+                    st.t_post += tp.elapsed().as_secs_f64();
+                    if let Err(e) = pc {
                         if st.failures.len() < 20 {
                             st.failures.push((h.name.clone(), cand.clone(), None, format!("after recovery to commit point {cp}: {e}")));
                         }
@@ -651,7 +713,7 @@ pub fn run_histories(hs: Vec<History>, b: Bounds) -> CrashStats {
         let r = explore_history(h, &b);
         if verbose {
             eprintln!(
-                "  {}: points={} cands={} judged={} rec2={} torn={} maxW={} fails={} recfail={} tj2={:.1} {:.1}s",
+                "  {}: points={} cands={} judged={} rec2={} torn={} maxW={} fails={} recfail={} tj2={:.1} tj1={:.1} tpost={:.1} {:.1}s",
                 h.name,
                 r.crash_points,
                 r.candidates,
@@ -662,6 +724,8 @@ pub fn run_histories(hs: Vec<History>, b: Bounds) -> CrashStats {
                 r.failures.len(),
                 r.record_failures.len(),
                 r.t_judge2,
+                r.t_judge1,
+                r.t_post,
                 t0.elapsed().as_secs_f64()
             );
         }
